@@ -107,6 +107,12 @@ def check_graph(chk, P, names, edges, counters, light=False):
         expect("C12.Q.endpoints", "of-node", call("endpoints", n), ({n} | g.descendants(n)) & ep)
     expect("C12.Q.startpoints", "all", call("startpoints"), {x for x in names if c.type(x) == "input"})
     expect("C12.Q.endpoints", "all", call("endpoints"), c.outputs())
+    # an empty node list is a node list: nothing is among "ns and its ancestors"
+    for empty, tag in (([], "empty-list"), (set(), "empty-set")):
+        expect("C12.Q.startpoints", f"of-{tag}", call("startpoints", empty), set())
+        expect("C12.Q.endpoints", f"of-{tag}", call("endpoints", empty), set())
+        expect("C12.Q.transitive_fanin", f"of-{tag}", call("transitive_fanin", empty), set())
+        expect("C12.Q.fanout", f"of-{tag}", call("fanout", empty), set())
     for pair in ([] if light else itertools.combinations(names, 2)):
         pl = list(pair)
         expect("C12.Q.fanin", "list", call("fanin", pl), set().union(*[set(g._pred[x]) for x in pl]))
@@ -210,6 +216,9 @@ def check_levelize(chk, P):
         "constants": {"z": ("0", []), "o": ("1", []), "x": ("x", []), "a": ("input", []), "g": ("or", ["z", "a"]), "h": ("and", ["g", "o", "x"])},
         "blackbox-source": {"a": ("input", []), "u.q": ("bb_output", []), "w": ("buf", ["u.q"]), "g": ("and", ["w", "a"]), "u.d": ("bb_input", ["g"])},
         "only-blackbox-source": {"u.q": ("bb_output", []), "w": ("buf", ["u.q"]), "n": ("not", ["w"])},
+        # a gate without fan-in (an undriven gate: expressible, though lint reports it by default) is a source like any other
+        "undriven-gate-as-a-source": {"a": ("input", []), "fl": ("and", []), "g": ("or", ["a", "fl"]), "h": ("not", ["g"])},
+        "only-undriven-gates": {"p": ("xor", []), "q": ("buf", ["p"])},
     }
     for name, spec in specs.items():
         c = build(spec, outputs=[list(spec)[-1]])
@@ -350,6 +359,10 @@ def run(chk):
     vocabulary_rule(chk, repo, "C12.S.vocabulary", [(FILE, "Circuit.startpoints"), (FILE, "Circuit.endpoints"), (FILE, "Circuit.inputs"), ("props.py", "levelize")])
     ns = closure_discipline_rule(chk, repo, "C12.S.reflexive-closure", [(FILE, "Circuit.startpoints"), (FILE, "Circuit.endpoints"), (FILE, "Circuit.reconvergent_fanout_nodes"), (FILE, "Circuit.fanin_depth"), (FILE, "Circuit.fanout_depth")],
                                  {(FILE, "Circuit.fanin_depth"): "`reachable` only restricts the all-visited test; the seeds are tracked in `visited`", (FILE, "Circuit.fanout_depth"): "same as fanin_depth"})
+    from ..structural import path_recursion_rule
+
+    path_recursion_rule(chk, repo, "C12.R.call-depth", [(FILE, f"Circuit.{m}") for m in ("fanin", "fanout", "transitive_fanin", "transitive_fanout", "startpoints", "endpoints", "fanin_depth", "fanout_depth",
+                                                                                             "reconvergent_fanout_nodes", "kcuts", "topo_sort", "is_cyclic")] + [("props.py", "levelize")])
     from ..history import history_rule
 
     history_rule(chk, "C12.H")
